@@ -5,7 +5,7 @@ import re
 KEYWORDS = {'func', 'requires', 'ensures', 'modifies', 'loop', 'invariant', 'decreases', 'writes', 'spec',
             'axiom', 'lemma', 'typeinv', 'effect', 'property', 'wrap', 'track', 'trusted', 'assume',
             'pure', 'ovf', 'replay', 'note', 'havoc', 'package', 'funcvar', 'ghost', 'reads', 'bounded', 'use',
-            'assert', 'cut', 'opaque', 'params', 'deadreturns', 'bensures', 'mathint', 'global', 'globalinv', 'exit', 'entry', 'skip', 'callsite', 'frees', 'reveal', 'appfact'}
+            'assert', 'cut', 'opaque', 'params', 'deadreturns', 'bensures', 'mathint', 'global', 'globalinv', 'exit', 'entry', 'skip', 'callsite', 'libfact', 'frees', 'reveal', 'appfact'}
 
 
 class SpecError(Exception):
@@ -482,6 +482,14 @@ class Specs(object):
                 cl.anchor = ma.group(1)
                 cur.anchored = getattr(cur, 'anchored', [])
                 cur.anchored.append(cl)
+            elif kw == 'libfact':
+                # libfact @after"source text" expr -- reason : a fact about the result of a library call made on that
+                # line (what a regular expression can match, ...), assumed when the line has run and reported as an assumption
+                ma = re.match(r'@after"([^"]*)"\s*(.*)$', rest)
+                if not ma:
+                    raise SpecError('%s: libfact @after"source text" expr -- reason' % src)
+                cur.libfacts = getattr(cur, 'libfacts', [])
+                cur.libfacts.append((ma.group(1), Clause('libfact', ma.group(2).split(' -- ')[0].strip(), props, src), ma.group(2)))
             elif kw == 'cut':
                 ma = re.match(r'@"([^"]*)"\s*(.*)$', rest)
                 cur.cuts = getattr(cur, 'cuts', [])
